@@ -21,6 +21,9 @@ OP_BUDGET = 40000
 def dec(v):
     if isinstance(v, list) and v and v[0] == 'F':
         return Fraction(v[1], v[2])
+    if isinstance(v, list) and v and v[0] == 'D':
+        import decimal
+        return decimal.Decimal(v[1])
     if v == 'N':
         return None
     return v
@@ -462,6 +465,19 @@ class Interp:
                     return other is wr() or other is self
             obj = Proxy()
             self.probes['generator_lookalike_rejected'] += 1
+        elif what == 'duck':
+            # quacks like a generator (collections.abc.Generator) but is
+            # not a generator object
+            import collections.abc
+
+            class Duck(collections.abc.Generator):
+                def send(self, value):
+                    raise StopIteration
+
+                def throw(self, *a):
+                    raise StopIteration
+            obj = Duck()
+            self.probes['generator_lookalike_rejected'] += 1
         else:
             obj = {'int': 3, 'none': None, 'func': (lambda: None),
                    'list': [1]}[what]
@@ -537,8 +553,8 @@ class Interp:
             if e == 1:
                 late = c in woken
                 kind = 'woke_late' if late else 'not_advanced'
-                owner = ('C08', 'C09') if c in self.ever_restarted else (
-                    'C08',)
+                # C08: "never later"; C09: "PAUSED until that wait elapses"
+                owner = ('C08', 'C09')
                 self.fail(owner, kind, f'c{c} was not advanced in frame '
                           f'{self.frame_no} (dt {dt!r}); advanced: '
                           f'{self.advanced}')
@@ -669,6 +685,16 @@ def generate(prop, run_seed, tier='quick', tolerate=frozenset()):
         dts = crng.sample([1, 500, 30000, 65536, 66000, 2 ** 17, 0.5, 536,
                            0, 0.25, 2 ** 30, 2 ** 29],
                           crng.randint(2, 5))
+    elif crng.random() < .04:
+        # decimal waits with whole-number frames (exact as well)
+        dts = [1, 1, 2, 0]
+        for co in coros:
+            co['yields'] = [crng.choice([['D', '1.5'], ['D', '2'],
+                                         ['D', '0.1'], 1, ['D', '3.25']]) if (
+                y != 'N' and not isinstance(y, bool) and (
+                    isinstance(y, list) or (isinstance(y, (int, float))
+                                            and y > 0))) else y
+                for y in co['yields']]
     elif crng.random() < .06:
         # exact rational time steps that are not binary fractions (and huge
         # integer waits): still "exactly representable" - as Fractions/ints
@@ -704,17 +730,37 @@ def generate(prop, run_seed, tier='quick', tolerate=frozenset()):
                           'ret': None})
         order = list(range(nch + nw))
         crng.shuffle(order)             # scattered positions in the heap
-        ops = [['start', c] for c in order] + [['frame', 1]]
-        for _ in range(crng.randint(33, 60)):
-            c = crng.randrange(nch)
-            ops += [['kill', c], ['start', c], ['frame', 0]]
+        scripts = {}
+        if crng.random() < .4:
+            # the cycles are driven from inside a coroutine body (a
+            # watchdog re-arming sleepers), one per frame
+            for co in coros[:nch]:      # sleepers that never wake by themselves
+                co['yields'] = [crng.randint(1000, 2000) for _ in range(70)]
+            drv = len(coros)
+            coros.append({'yields': [1] * 70 if crng.random() < .7
+                          else ['N'] * 70, 'ret': None})
+            tick = len(coros)           # stepped after the driver, waits 1
+            coros.append({'yields': [1] * 90, 'ret': None})
+            ops = [['start', c] for c in order] + [['frame', 1],
+                                                   ['start', drv],
+                                                   ['start', tick]]
+            for k in range(crng.randint(33, 60)):
+                c = crng.randrange(nch)
+                scripts[f'co:{drv}:{k}'] = [['kill', c], ['start', c]]
+                ops.append(['frame', 1])
+            ops.append(['kill', drv])
+        else:
+            ops = [['start', c] for c in order] + [['frame', 1]]
+            for _ in range(crng.randint(33, 60)):
+                c = crng.randrange(nch)
+                ops += [['kill', c], ['start', c], ['frame', 0]]
         for _ in range(26):
             ops.append(['frame', crng.choice([3, 4, 5])])
             if crng.random() < .3:
                 ops.append(['state', crng.randrange(nch + nw)])
         return {'format': 1, 'engine': 'coro',
                 'config': {'in_world': False, 'coros': coros, 'churn': True},
-                'ops': ops, 'scripts': {}}
+                'ops': ops, 'scripts': scripts}
     cfg = {'in_world': crng.random() < .33, 'coros': coros}
     life = prop == 'C09'
     w = dict(frame=6, start=2, kill=.4, pkill=.1, state=.3, pstate=.1,
@@ -753,7 +799,7 @@ def generate(prop, run_seed, tier='quick', tolerate=frozenset()):
         elif k == 'bad':
             ops.append(['bad', rng.choice(['start', 'kill', 'state']),
                         rng.choice(['int', 'none', 'func', 'list', 'proxy',
-                                    'proxy'])])
+                                    'proxy', 'duck'])])
         elif k == 'dstart':
             ops.append(['dstart', c, rng.random() < .5])
         else:
